@@ -48,6 +48,24 @@ func TestVerif_C20_PublicAPI(t *testing.T) {
 				m.Violationf("c20:read-before-start-not-refused:"+name, map[string]interface{}{"getter": name}, "%s returned a value before Start", name)
 			}
 		}
+		// a meter that is closed without ever having been started has still never been started: a reader racing a deferred
+		// Close on a meter whose Start was never reached must be refused like any other read before Start
+		{
+			kb0 := kxps.NewKbps(nil, s)
+			kr0 := kxps.NewKrps(nil, s)
+			kb0.Close()
+			kr0.Close()
+			for name, g := range map[string]func() float64{"kbps10": kb0.Kbps10s, "kbps30": kb0.Kbps30s, "kbps300": kb0.Kbps300s, "kbpsAvg": kb0.Average,
+				"krps10": kr0.Rps10s, "krps30": kr0.Rps30s, "krps300": kr0.Rps300s, "krpsAvg": kr0.Average} {
+				m.Case()
+				m.Class("closed-never-started/" + name)
+				if !refused(g) {
+					m.Violationf("c20:read-before-start-not-refused:closed-never-started:"+name, map[string]interface{}{"getter": name, "sequence": "New, Close, read"},
+						"%s returned a value on a meter that was closed without ever being started", name)
+				}
+			}
+			m.Count("never_started_meters_closed_then_read", 2)
+		}
 		m.Guard("kxps.public", nil, func() {
 			if err := kb.Start(); err != nil {
 				m.Violationf("c20:start-error", nil, "%v", err)
@@ -78,6 +96,7 @@ func TestVerif_C20_PublicAPI(t *testing.T) {
 		})
 	}
 	m.Require("meters_exercised", 40)
+	m.Require("never_started_meters_closed_then_read", 40)
 	// a meter started on a counter that is already large and then does not move (a process that attaches a meter to a
 	// connection that has been up for a while): no increase was ever observed, every rate and the average are exactly 0
 	for run := 0; run < m.N(6, 60); run++ {
